@@ -291,8 +291,24 @@ def include_dirs(main):
     return ds
 
 
+def annotate_zones(f):
+    """(re)compute, for every include item, the zone its includer has selected at that point"""
+    zone = 'GLOBAL'
+    for it in f['items']:
+        if it['t'] == 'line':
+            t = it['s'].strip()
+            if t.startswith('.memzone '):
+                zone = t.split()[1]
+            elif t.startswith('.org'):
+                zone = 'GLOBAL'
+        else:
+            it['zone'] = zone
+            annotate_zones(it['file'])
+
+
 def reference_lines(main, bracket=True):
     """the in-place reference: one list of lines"""
+    annotate_zones(main)        # never trust stored annotations: the minimiser removes lines
     out = []
 
     def walk(f):
